@@ -665,6 +665,48 @@ func (m *Master) Run(verifDir string, seed int) int {
 			m.enumerate(ui, un.En)
 		}
 	}
+	// thorough tier, second pass: the history units that were cut by their
+	// share are explored again from scratch with the time that is left, shared
+	// among them alone (a breadth-first level costs about ten times the
+	// previous one, so starting over wastes little); their first reports are
+	// replaced.
+	if m.Tier == "thorough" && !m.Deadline.IsZero() && !m.Aborted {
+		var cut []int
+		for ui, un := range m.units {
+			if un.Sc == nil {
+				continue
+			}
+			for _, rep := range m.UnitReports {
+				if rep["unit"] == un.Sc.Name && rep["kind"] == "bfs" && rep["exhaustive"] == false {
+					cut = append(cut, ui)
+				}
+			}
+		}
+		for k, ui := range cut {
+			left := time.Until(m.Deadline)
+			if left < 20*time.Second || m.Aborted {
+				break
+			}
+			name := m.units[ui].Sc.Name
+			for i, rep := range m.UnitReports {
+				if rep["unit"] == name && rep["kind"] == "bfs" {
+					m.States -= rep["states"].(int)
+					m.Transitions -= rep["transitions"].(int)
+					m.UnitReports = append(m.UnitReports[:i], m.UnitReports[i+1:]...)
+					break
+				}
+			}
+			m.unitDeadline = time.Now().Add(left / time.Duration(len(cut)-k))
+			m.bfs(ui, m.units[ui].Sc)
+			m.UnitReports[len(m.UnitReports)-1]["second_pass"] = true
+		}
+		m.Exhaustive = !m.Aborted
+		for _, rep := range m.UnitReports {
+			if rep["exhaustive"] == false {
+				m.Exhaustive = false
+			}
+		}
+	}
 
 	// group findings by rule, shortest first (BFS order is already by depth per unit)
 	byRule := map[string][]Found{}
